@@ -15,6 +15,7 @@ RULE = {
            "A case is non-trivial when the message has >=2 bytes and is not all zero; distinct = distinct message hash "
            "(+ error pattern for 'detect')."
 }
+RULE["C20"] += "  'inplace': one bytearray / list / memoryview object changed in place and checksummed again, data iterators that call crc7() themselves; value cases are replayed behind the two preceding messages."
 REQUIRED = {"C20": {"shorter-message-after-longer-one": 500, "same-memoryview-object-rechecked": 200, "pair-transition": 65536, "random-message": 500, "same-object-rechecked": 1000, "nested-call": 200,
                     "linearity-pair": 200, "single-bit": 500, "double-bit": 5000, "burst": 2000}}
 ASSUMPTIONS = {"C20": ["reference CRC is a 12-line bit-serial shift register written from the statement, "
